@@ -1,7 +1,614 @@
 /-
-Helper lemmas (agent model) — see the Props file that imports this module.
+Helper lemmas (agent model) for C07: association lists up to permutation, order-independence of
+`ready`/`minWait`/`agentPoll`, preservation of `KeysNodup`, and `hadCreds` invariance.
 -/
 import StunVerif.Lemmas.AgentMap
 namespace StunVerif.Agent
+
+/-! ### association lists with unique keys, up to permutation -/
+
+theorem lookup_eq_some_of_mem (out : List (Nat × Req)) (hk : (out.map (·.1)).Nodup)
+    (t : Nat) (r : Req) (hm : (t, r) ∈ out) : lookup out t = some r := by
+  induction out with
+  | nil => cases hm
+  | cons p out ih =>
+    rw [List.map_cons, List.nodup_cons] at hk
+    rw [lookup_cons]
+    rcases List.mem_cons.mp hm with e | hm'
+    · subst e; simp
+    · have hne : p.1 ≠ t := by
+        intro e
+        apply hk.1
+        rw [e]
+        exact List.mem_map.mpr ⟨(t, r), hm', rfl⟩
+      rw [if_neg hne]
+      exact ih hk.2 hm'
+
+theorem mem_of_lookup_eq_some (out : List (Nat × Req)) (t : Nat) (r : Req)
+    (h : lookup out t = some r) : (t, r) ∈ out := by
+  induction out with
+  | nil => simp at h
+  | cons p out ih =>
+    rw [lookup_cons] at h
+    by_cases hp : p.1 = t
+    · rw [if_pos hp] at h
+      have : p = (t, r) := by
+        cases p; simp at hp h; simp [hp, h]
+      rw [this]; exact List.mem_cons_self
+    · rw [if_neg hp] at h
+      exact List.mem_cons_of_mem _ (ih h)
+
+theorem lookup_perm {out out' : List (Nat × Req)} (hp : out.Perm out')
+    (hk : (out.map (·.1)).Nodup) (t : Nat) : lookup out t = lookup out' t := by
+  have hk' : (out'.map (·.1)).Nodup := ((hp.map (·.1)).nodup_iff).mp hk
+  cases h : lookup out t with
+  | some r =>
+    have := mem_of_lookup_eq_some out t r h
+    exact (lookup_eq_some_of_mem out' hk' t r (hp.mem_iff.mp this)).symm
+  | none =>
+    cases h' : lookup out' t with
+    | none => rfl
+    | some r =>
+      have := mem_of_lookup_eq_some out' t r h'
+      rw [lookup_eq_some_of_mem out hk t r (hp.mem_iff.mpr this)] at h
+      cases h
+
+theorem remove_perm {out out' : List (Nat × Req)} (hp : out.Perm out') (t : Nat) :
+    (remove out t).Perm (remove out' t) := hp.filter _
+
+theorem update_perm {out out' : List (Nat × Req)} (hp : out.Perm out') (t : Nat) (f : Req → Req) :
+    (update out t f).Perm (update out' t f) := hp.map _
+
+theorem insert_perm {out out' : List (Nat × Req)} (hp : out.Perm out') (t : Nat) (r : Req) :
+    (insert out t r).Perm (insert out' t r) := (remove_perm hp t).cons _
+
+theorem remove_remove (out : List (Nat × Req)) (t : Nat) : remove (remove out t) t = remove out t := by
+  unfold remove
+  rw [List.filter_filter]
+  congr 1
+  funext p
+  simp
+
+theorem remove_eq_self_of_not_mem (out : List (Nat × Req)) (t : Nat) (h : t ∉ out.map (·.1)) :
+    remove out t = out := by
+  unfold remove
+  rw [List.filter_eq_self]
+  intro p hp
+  have : p.1 ≠ t := by
+    intro e; apply h; rw [← e]; exact List.mem_map.mpr ⟨p, hp, rfl⟩
+  simpa using this
+
+/-- re-inserting a binding that is already there changes only the storage order -/
+theorem insert_lookup_perm (out : List (Nat × Req)) (hk : (out.map (·.1)).Nodup) (t : Nat) (r : Req)
+    (h : lookup out t = some r) : (insert out t r).Perm out := by
+  induction out with
+  | nil => simp at h
+  | cons p out ih =>
+    rw [List.map_cons, List.nodup_cons] at hk
+    rw [lookup_cons] at h
+    unfold insert
+    rw [remove_cons]
+    by_cases hp : p.1 = t
+    · rw [if_pos hp] at h
+      rw [if_pos hp]
+      have e : p = (t, r) := by
+        cases p; simp at hp h; simp [hp, h]
+      rw [remove_eq_self_of_not_mem out t (by rw [← hp]; exact hk.1), e]
+    · rw [if_neg hp] at h
+      rw [if_neg hp]
+      exact (List.Perm.swap p (t, r) (remove out t)).trans ((ih hk.2 h).cons p)
+
+/-! ### `KeysNodup` is preserved -/
+
+theorem nodup_keys_update (out : List (Nat × Req)) (hk : (out.map (·.1)).Nodup) (t : Nat)
+    (f : Req → Req) : ((update out t f).map (·.1)).Nodup := by
+  rw [keys_update]; exact hk
+
+theorem nodup_keys_remove (out : List (Nat × Req)) (hk : (out.map (·.1)).Nodup) (t : Nat) :
+    ((remove out t).map (·.1)).Nodup := by
+  rw [keys_remove]; exact List.Nodup.sublist List.filter_sublist hk
+
+theorem nodup_keys_insert (out : List (Nat × Req)) (hk : (out.map (·.1)).Nodup) (t : Nat) (r : Req) :
+    ((insert out t r).map (·.1)).Nodup := by
+  unfold insert
+  rw [List.map_cons, List.nodup_cons]
+  refine ⟨?_, nodup_keys_remove out hk t⟩
+  rw [keys_remove]
+  simp
+
+@[simp] theorem validatedPeer_out_auth (s : State) (a : SockAddr) : (validatedPeer s a).out = s.out := by
+  unfold validatedPeer; split <;> rfl
+
+@[simp] theorem validatedPeer_transport (s : State) (a : SockAddr) :
+    (validatedPeer s a).transport = s.transport := by
+  unfold validatedPeer; split <;> rfl
+
+@[simp] theorem validatedPeer_localAddr (s : State) (a : SockAddr) :
+    (validatedPeer s a).localAddr = s.localAddr := by
+  unfold validatedPeer; split <;> rfl
+
+@[simp] theorem validatedPeer_remoteCreds (s : State) (a : SockAddr) :
+    (validatedPeer s a).remoteCreds = s.remoteCreds := by
+  unfold validatedPeer; split <;> rfl
+
+theorem validatedPeer_contains (s : State) (a b : SockAddr) :
+    (validatedPeer s a).validated.contains b = (b == a || s.validated.contains b) := by
+  unfold validatedPeer
+  split
+  · rename_i h
+    by_cases e : b = a
+    · subst e; rw [h]; simp
+    · simp [e]
+  · rw [List.contains_cons]
+
+theorem validatedPeer_equiv {s s' : State} (he : s.Equiv s') (a : SockAddr) :
+    (validatedPeer s a).Equiv (validatedPeer s' a) := by
+  obtain ⟨h1, h2, h3, h4, h5⟩ := he
+  refine ⟨by simpa using h1, by simpa using h2, by simpa using h3, ?_, by simpa using h5⟩
+  intro b
+  rw [validatedPeer_contains, validatedPeer_contains, h4 b]
+
+theorem State.Equiv.refl (s : State) : s.Equiv s :=
+  ⟨rfl, rfl, rfl, fun _ => rfl, List.Perm.refl _⟩
+
+theorem State.Equiv.keysNodup {s s' : State} (he : s.Equiv s') (hk : KeysNodup s) : KeysNodup s' :=
+  ((he.2.2.2.2.map (fun p : Nat × Req => p.1)).nodup_iff).mp hk
+
+theorem State.Equiv.lookup_eq {s s' : State} (he : s.Equiv s') (hk : KeysNodup s) (t : Nat) :
+    lookup s.out t = lookup s'.out t := lookup_perm he.2.2.2.2 hk t
+
+/-- replacing `out` by permutation-equivalent lists keeps states equivalent -/
+theorem State.Equiv.withOut {s s' : State} (he : s.Equiv s') {o o' : List (Nat × Req)}
+    (hp : o.Perm o') : ({ s with out := o } : State).Equiv { s' with out := o' } :=
+  ⟨he.1, he.2.1, he.2.2.1, he.2.2.2.1, hp⟩
+
+/-! ### order-independence of `poll` -/
+
+theorem ready_perm {s s' : State} (hp : s.out.Perm s'.out) (now : Time) :
+    (ready s now).Perm (ready s' now) := (hp.filter _).map _
+
+/-- one step of the `minWait` fold -/
+def accWait (acc : Option Time) (ret : ReqRet) : Option Time :=
+  match ret with
+  | .waitUntil t => (match acc with
+    | none => some t
+    | some a => if t < a then some t else some a)
+  | _ => acc
+
+theorem minWait_eq_auth (s : State) (now : Time) :
+    minWait s now = s.out.foldl (fun acc p => accWait acc (reqPoll p.2 now).2) none := rfl
+
+theorem accWait_none_wait (t : Time) : accWait none (.waitUntil t) = some t := rfl
+
+theorem accWait_some_wait (a t : Time) :
+    accWait (some a) (.waitUntil t) = some (if t < a then t else a) := by
+  simp only [accWait]; split <;> rfl
+
+theorem ite_min_comm (t u : Nat) : (if u < t then u else t) = (if t < u then t else u) := by
+  split <;> split <;> omega
+
+theorem ite_min_comm3 (a t u : Nat) :
+    (if u < (if t < a then t else a) then u else (if t < a then t else a)) =
+    (if t < (if u < a then u else a) then t else (if u < a then u else a)) := by
+  by_cases h1 : t < a <;> by_cases h2 : u < a <;> simp only [h1, h2, if_true, if_false] <;>
+    split <;> (try split) <;> omega
+
+theorem accWait_comm (z : Option Time) (a b : ReqRet) :
+    accWait (accWait z a) b = accWait (accWait z b) a := by
+  cases a <;> cases b <;> try rfl
+  rename_i t u
+  cases z with
+  | none =>
+    simp only [accWait_none_wait, accWait_some_wait]
+    congr 1
+    exact ite_min_comm t u
+  | some a =>
+    simp only [accWait_some_wait]
+    congr 1
+    exact ite_min_comm3 a t u
+
+theorem minWait_perm {s s' : State} (hp : s.out.Perm s'.out) (now : Time) :
+    minWait s now = minWait s' now := by
+  rw [minWait_eq_auth, minWait_eq_auth]
+  apply hp.foldl_eq'
+  intro x _ y _ z
+  exact accWait_comm z _ _
+
+/-- which transaction `agentPoll` serves -/
+def chosenOf (rs : List Nat) (pick : Option Nat) : Option Nat :=
+  match pick with
+  | some t => if rs.contains t then some t else rs.head?
+  | none => rs.head?
+
+/-- `agentPoll` once the transaction to serve is chosen -/
+def serve (s : State) (now : Time) (chosen : Option Nat) : State × Out :=
+  match chosen with
+  | none => (s, .waitUntil ((minWait s now).getD (now + msNs 3600000)))
+  | some tid =>
+    match lookup s.out tid with
+    | none => (s, .waitUntil (now + msNs 3600000))
+    | some r =>
+      let (r', ret) := reqPoll r now
+      match ret with
+      | .sendData => ({ s with out := update s.out tid fun _ => r' }, .transmit (some tid) (mkTransmit s r'))
+      | .timedOut => ({ s with out := remove s.out tid }, .timedOut tid)
+      | .cancelled => ({ s with out := remove s.out tid }, .cancelled tid)
+      | .waitUntil t => (s, .waitUntil t)
+
+theorem agentPoll_eq (s : State) (now : Time) (pick : Option Nat) :
+    agentPoll s now pick = serve s now (chosenOf (ready s now) pick) := rfl
+
+theorem chosenOf_none {rs : List Nat} {pick : Option Nat} (h : chosenOf rs pick = none) : rs = [] := by
+  unfold chosenOf at h
+  cases pick with
+  | none => simpa using h
+  | some t =>
+    simp only at h
+    split at h
+    · cases h
+    · simpa using h
+
+theorem chosenOf_some {rs : List Nat} {pick : Option Nat} {t : Nat} (h : chosenOf rs pick = some t) :
+    t ∈ rs := by
+  unfold chosenOf at h
+  cases pick with
+  | none => exact List.mem_of_head? h
+  | some u =>
+    simp only at h
+    split at h
+    · rename_i hc
+      cases h
+      simpa using hc
+    · exact List.mem_of_head? h
+
+theorem chosenOf_stable {rs rs' : List Nat} (hp : rs.Perm rs') (pick : Option Nat) :
+    chosenOf rs' (chosenOf rs pick) = chosenOf rs pick := by
+  cases h : chosenOf rs pick with
+  | none =>
+    have e := chosenOf_none h
+    subst e
+    rw [hp.symm.eq_nil]
+    rfl
+  | some t =>
+    have hm : t ∈ rs' := hp.mem_iff.mp (chosenOf_some h)
+    have hc : rs'.contains t = true := by simpa using hm
+    simp [chosenOf, hm]
+
+theorem mkTransmit_equiv {s s' : State} (he : s.Equiv s') (r : Req) : mkTransmit s r = mkTransmit s' r := by
+  unfold mkTransmit
+  rw [he.1, he.2.1]
+
+theorem serve_equiv {s s' : State} (he : s.Equiv s') (hk : KeysNodup s) (now : Time) (c : Option Nat) :
+    (serve s now c).2 = (serve s' now c).2 ∧ (serve s now c).1.Equiv (serve s' now c).1 ∧
+      KeysNodup (serve s now c).1 := by
+  cases c with
+  | none =>
+    simp only [serve]
+    rw [minWait_perm he.2.2.2.2 now]
+    exact ⟨rfl, he, hk⟩
+  | some tid =>
+    simp only [serve]
+    rw [← he.lookup_eq hk tid]
+    cases lookup s.out tid with
+    | none => exact ⟨rfl, he, hk⟩
+    | some r =>
+      simp only
+      rcases reqPoll r now with ⟨r', ret⟩
+      cases ret <;> dsimp only
+      case waitUntil t => exact ⟨rfl, he, hk⟩
+      case cancelled =>
+        exact ⟨rfl, he.withOut (remove_perm he.2.2.2.2 tid), nodup_keys_remove _ hk tid⟩
+      case timedOut =>
+        exact ⟨rfl, he.withOut (remove_perm he.2.2.2.2 tid), nodup_keys_remove _ hk tid⟩
+      case sendData =>
+        refine ⟨?_, he.withOut (update_perm he.2.2.2.2 tid _), nodup_keys_update _ hk tid (fun _ => r')⟩
+        simp only [mkTransmit_equiv he]
+
+/-! ### equivalent states step alike -/
+
+theorem SameCall.refl (op : Op) : SameCall op op := by
+  cases op <;> simp [SameCall]
+
+theorem keysNodup_validatedPeer {s : State} (hk : KeysNodup s) (a : SockAddr) :
+    KeysNodup (validatedPeer s a) := by
+  unfold KeysNodup; rw [validatedPeer_out_auth]; exact hk
+
+theorem step_equiv_sendReq {s s' : State} (he : s.Equiv s') (hk : KeysNodup s)
+    (tid : Nat) (bytes : Bytes) (hc : Bool) (to : SockAddr) (now : Time) :
+    (step s (.sendReq tid bytes hc to now)).2 = (step s' (.sendReq tid bytes hc to now)).2 ∧
+    (step s (.sendReq tid bytes hc to now)).1.Equiv (step s' (.sendReq tid bytes hc to now)).1 ∧
+    KeysNodup (step s (.sendReq tid bytes hc to now)).1 := by
+  obtain ⟨tr, la, rc, v, o⟩ := s
+  obtain ⟨tr', la', rc', v', o'⟩ := s'
+  obtain ⟨h1, h2, h3, h4, h5⟩ := he
+  dsimp only at h1 h2 h3
+  subst h1 h2 h3
+  have he : State.Equiv ⟨tr, la, rc, v, o⟩ ⟨tr, la, rc, v', o'⟩ := ⟨rfl, rfl, rfl, h4, h5⟩
+  simp only [step]
+  rw [← he.lookup_eq hk tid]
+  split
+  · exact ⟨rfl, he, hk⟩
+  · rcases reqPoll (Req.new tr bytes hc to) now with ⟨r', ret⟩
+    cases ret <;> dsimp only
+    case sendData =>
+      exact ⟨rfl, he.withOut (insert_perm he.2.2.2.2 tid r'), nodup_keys_insert _ hk tid r'⟩
+    all_goals exact ⟨rfl, he, hk⟩
+
+theorem step_equiv_handle {s s' : State} (he : s.Equiv s') (hk : KeysNodup s)
+    (m : InMsg) (src : SockAddr) :
+    (step s (.handle m src)).2 = (step s' (.handle m src)).2 ∧
+    (step s (.handle m src)).1.Equiv (step s' (.handle m src)).1 ∧
+    KeysNodup (step s (.handle m src)).1 := by
+  obtain ⟨tr, la, rc, v, o⟩ := s
+  obtain ⟨tr', la', rc', v', o'⟩ := s'
+  obtain ⟨h1, h2, h3, h4, h5⟩ := he
+  dsimp only at h1 h2 h3
+  subst h1 h2 h3
+  have he : State.Equiv ⟨tr, la, rc, v, o⟩ ⟨tr, la, rc, v', o'⟩ := ⟨rfl, rfl, rfl, h4, h5⟩
+  simp only [step]
+  rw [← he.lookup_eq hk m.tid]
+  dsimp only
+  have hrm : State.Equiv ⟨tr, la, rc, v, remove o m.tid⟩ ⟨tr, la, rc, v', remove o' m.tid⟩ :=
+    he.withOut (remove_perm he.2.2.2.2 m.tid)
+  have hkrm : KeysNodup ⟨tr, la, rc, v, remove o m.tid⟩ := nodup_keys_remove _ hk m.tid
+  have hre : ∀ r, State.Equiv ⟨tr, la, rc, v, insert (remove o m.tid) m.tid r⟩
+      ⟨tr, la, rc, v', insert (remove o' m.tid) m.tid r⟩ :=
+    fun r => he.withOut (insert_perm (remove_perm he.2.2.2.2 m.tid) m.tid r)
+  have hkre : ∀ r, KeysNodup ⟨tr, la, rc, v, insert (remove o m.tid) m.tid r⟩ :=
+    fun r => nodup_keys_insert _ (nodup_keys_remove _ hk m.tid) m.tid r
+  split
+  · cases lookup o m.tid with
+    | none => exact ⟨rfl, he, hk⟩
+    | some r =>
+      dsimp only
+      split
+      · cases rc with
+        | none => exact ⟨rfl, hre r, hkre r⟩
+        | some k =>
+          dsimp only
+          split
+          · exact ⟨rfl, validatedPeer_equiv hrm src, keysNodup_validatedPeer hkrm src⟩
+          · exact ⟨rfl, hre r, hkre r⟩
+      · exact ⟨rfl, validatedPeer_equiv hrm src, keysNodup_validatedPeer hkrm src⟩
+  · exact ⟨rfl, validatedPeer_equiv he src, keysNodup_validatedPeer hk src⟩
+
+theorem step_equiv_poll {s s' : State} (he : s.Equiv s') (hk : KeysNodup s)
+    (now : Time) (pick : Option Nat) :
+    (step s (.poll now pick)).2 = (step s' (.poll now (chosenOf (ready s now) pick))).2 ∧
+    (step s (.poll now pick)).1.Equiv (step s' (.poll now (chosenOf (ready s now) pick))).1 ∧
+    KeysNodup (step s (.poll now pick)).1 := by
+  simp only [step]
+  rw [agentPoll_eq, agentPoll_eq, chosenOf_stable (ready_perm he.2.2.2.2 now)]
+  exact serve_equiv he hk now _
+
+theorem step_equiv_update {s s' : State} (he : s.Equiv s') (hk : KeysNodup s) (tid : Nat)
+    (f : Req → Req) :
+    ({ s with out := update s.out tid f } : State).Equiv { s' with out := update s'.out tid f } ∧
+    KeysNodup ({ s with out := update s.out tid f } : State) :=
+  ⟨he.withOut (update_perm he.2.2.2.2 tid f), nodup_keys_update _ hk tid f⟩
+
+theorem step_equiv {s s' : State} (he : s.Equiv s') (hk : KeysNodup s) (op : Op) :
+    ∃ op', SameCall op op' ∧ (step s op).2 = (step s' op').2 ∧
+      (step s op).1.Equiv (step s' op').1 ∧ KeysNodup (step s op).1 := by
+  cases op with
+  | sendReq tid bytes hc to now => exact ⟨_, SameCall.refl _, step_equiv_sendReq he hk tid bytes hc to now⟩
+  | sendOther bytes to =>
+    refine ⟨_, SameCall.refl _, ?_, he, hk⟩
+    simp only [step]
+    rw [he.1, he.2.1]
+  | handle m src => exact ⟨_, SameCall.refl _, step_equiv_handle he hk m src⟩
+  | poll now pick => exact ⟨.poll now (chosenOf (ready s now) pick), rfl, step_equiv_poll he hk now pick⟩
+  | cancel tid => exact ⟨_, SameCall.refl _, rfl, step_equiv_update he hk tid _⟩
+  | cancelRtx tid => exact ⟨_, SameCall.refl _, rfl, step_equiv_update he hk tid _⟩
+  | configure tid rto n last =>
+    refine ⟨_, SameCall.refl _, rfl, ?_⟩
+    simp only [step]
+    rw [show (fun r => configureReq s'.transport r rto n last) =
+      (fun r => configureReq s.transport r rto n last) from by rw [he.1]]
+    exact step_equiv_update he hk tid _
+  | setRemoteCreds k =>
+    exact ⟨_, SameCall.refl _, rfl, ⟨he.1, he.2.1, rfl, he.2.2.2.1, he.2.2.2.2⟩, hk⟩
+
+theorem keysNodup_step {s : State} (hk : KeysNodup s) (op : Op) : KeysNodup (step s op).1 := by
+  obtain ⟨_, _, _, _, h⟩ := step_equiv (State.Equiv.refl s) hk op
+  exact h
+
+theorem keysNodup_of_reachable {s : State} (hr : Reachable s) : KeysNodup s :=
+  Reachable.induction (P := KeysNodup) (fun _ _ => List.nodup_nil) (fun _ op h => keysNodup_step h op) hr
+
+/-- equivalent states give the same replies to every history, up to serving choices -/
+theorem trace_equiv (ops : List Op) : ∀ {s s' : State}, s.Equiv s' → KeysNodup s →
+    ∃ ops', SameCalls ops ops' ∧ (trace s ops).map (·.2) = (trace s' ops').map (·.2) := by
+  induction ops with
+  | nil => intro s s' _ _; exact ⟨[], trivial, rfl⟩
+  | cons op ops ih =>
+    intro s s' he hk
+    obtain ⟨op', hsc, ho, he1, hk1⟩ := step_equiv he hk op
+    obtain ⟨ops', hscs, ht⟩ := ih he1 hk1
+    refine ⟨op' :: ops', ⟨hsc, hscs⟩, ?_⟩
+    simp only [trace, List.map_cons, ho, ht]
+
+/-! ### `hadCreds` never changes -/
+
+theorem reqPoll_hadCreds (r : Req) (now : Time) : (reqPoll r now).1.hadCreds = r.hadCreds := by
+  unfold reqPoll
+  dsimp only
+  repeat' split
+  all_goals rfl
+
+theorem configureReq_hadCreds (tr : Transport) (r : Req) (a b c : Nat) :
+    (configureReq tr r a b c).hadCreds = r.hadCreds := by
+  cases tr <;> rfl
+
+/-- an `update` whose function keeps `hadCreds` keeps it for every binding -/
+theorem lookup_update_hadCreds (out : List (Nat × Req)) (t tid : Nat) (f : Req → Req)
+    (hf : ∀ r, (f r).hadCreds = r.hadCreds) (r r' : Req)
+    (hl : lookup out tid = some r) (hl' : lookup (update out t f) tid = some r') :
+    r'.hadCreds = r.hadCreds := by
+  by_cases e : tid = t
+  · subst e
+    rw [lookup_update_self, hl] at hl'
+    cases hl'
+    exact hf r
+  · rw [lookup_update_ne _ _ _ _ e, hl] at hl'
+    cases hl'; rfl
+
+theorem serve_hadCreds (s : State) (now : Time) (c : Option Nat) (tid : Nat) (r r' : Req)
+    (hl : lookup s.out tid = some r) (hl' : lookup (serve s now c).1.out tid = some r') :
+    r'.hadCreds = r.hadCreds := by
+  have same : lookup s.out tid = some r' → r'.hadCreds = r.hadCreds := by
+    intro h; rw [hl] at h; cases h; rfl
+  cases c with
+  | none => exact same hl'
+  | some t =>
+    simp only [serve] at hl'
+    cases hq : lookup s.out t with
+    | none => rw [hq] at hl'; exact same hl'
+    | some q =>
+      rw [hq] at hl'
+      dsimp only at hl'
+      have hpc := reqPoll_hadCreds q now
+      generalize reqPoll q now = x at hl' hpc
+      obtain ⟨q', ret⟩ := x
+      cases ret <;> dsimp only at hl' hpc
+      case waitUntil => exact same hl'
+      case sendData =>
+        by_cases e : tid = t
+        · subst e
+          rw [lookup_update_self, hl] at hl'
+          rw [hq] at hl
+          cases hl; cases hl'
+          exact hpc
+        · rw [lookup_update_ne _ _ _ _ e] at hl'
+          exact same hl'
+      all_goals
+        by_cases e : tid = t
+        · subst e
+          rw [lookup_remove_self] at hl'
+          cases hl'
+        · rw [lookup_remove_ne _ _ _ e] at hl'
+          exact same hl'
+
+theorem step_hadCreds (s : State) (op : Op) (tid : Nat) (r r' : Req)
+    (hl : lookup s.out tid = some r) (hl' : lookup (step s op).1.out tid = some r') :
+    r'.hadCreds = r.hadCreds := by
+  have same : lookup s.out tid = some r' → r'.hadCreds = r.hadCreds := by
+    intro h; rw [hl] at h; cases h; rfl
+  cases op with
+  | sendReq t bytes hc to now =>
+    simp only [step] at hl'
+    split at hl'
+    · exact same hl'
+    · rename_i hn
+      have e : tid ≠ t := by
+        intro e; subst e; rw [hl] at hn; exact hn rfl
+      generalize reqPoll (Req.new s.transport bytes hc to) now = x at hl'
+      obtain ⟨q', ret⟩ := x
+      cases ret <;> dsimp only at hl'
+      case sendData =>
+        rw [lookup_insert_ne _ _ _ _ e] at hl'
+        exact same hl'
+      all_goals exact same hl'
+  | sendOther bytes to => exact same hl'
+  | handle m src =>
+    have hrm : lookup (remove s.out m.tid) tid = some r' → r'.hadCreds = r.hadCreds := by
+      intro h
+      by_cases e : tid = m.tid
+      · rw [e, lookup_remove_self] at h; cases h
+      · rw [lookup_remove_ne _ _ _ e] at h; exact same h
+    have hre : ∀ q, lookup s.out m.tid = some q →
+        lookup (insert (remove s.out m.tid) m.tid q) tid = some r' →
+        r'.hadCreds = r.hadCreds := by
+      intro q hq h
+      by_cases e : tid = m.tid
+      · rw [e, lookup_insert_self] at h
+        rw [e, hq] at hl
+        cases h; cases hl; rfl
+      · rw [lookup_insert_ne _ _ _ _ e] at h
+        exact hrm h
+    simp only [step] at hl'
+    split at hl'
+    · cases hq : lookup s.out m.tid with
+      | none => rw [hq] at hl'; exact same hl'
+      | some q =>
+        rw [hq] at hl'
+        dsimp only at hl'
+        split at hl'
+        · cases hrc : s.remoteCreds with
+          | none => rw [hrc] at hl'; dsimp only at hl'; exact hre q hq hl'
+          | some k =>
+            rw [hrc] at hl'
+            dsimp only at hl'
+            split at hl'
+            · rw [validatedPeer_out_auth] at hl'; exact hrm hl'
+            · exact hre q hq hl'
+        · rw [validatedPeer_out_auth] at hl'; exact hrm hl'
+    · rw [validatedPeer_out_auth] at hl'; exact same hl'
+  | poll now pick =>
+    simp only [step] at hl'
+    rw [agentPoll_eq] at hl'
+    exact serve_hadCreds s now _ tid r r' hl hl'
+  | cancel t =>
+    simp only [step] at hl'
+    refine lookup_update_hadCreds s.out t tid _ ?_ r r' hl hl'
+    intro _; rfl
+  | cancelRtx t =>
+    simp only [step] at hl'
+    refine lookup_update_hadCreds s.out t tid _ ?_ r r' hl hl'
+    intro _; rfl
+  | configure t a b c =>
+    simp only [step] at hl'
+    exact lookup_update_hadCreds s.out t tid _ (fun q => configureReq_hadCreds _ q a b c) r r' hl hl'
+  | setRemoteCreds k => exact same hl'
+
+/-! ### dropped responses -/
+
+/-- what a drop of a response to an outstanding request means -/
+theorem handle_drop_some (s : State) (m : InMsg) (src : SockAddr) (r : Req) (k : Key)
+    (hl : lookup s.out m.tid = some r) (hk : s.remoteCreds = some k)
+    (hd : (step s (.handle m src)).2 = .drop) :
+    m.isResponse = true ∧ r.hadCreds = true ∧ m.validUnder k = false ∧
+    (step s (.handle m src)).1 =
+      { s with out := insert (remove s.out m.tid) m.tid r } := by
+  by_cases hr : m.isResponse = true
+  · cases hc : r.hadCreds with
+    | false => simp only [step, hr, hl, hc, if_true] at hd; cases hd
+    | true =>
+      cases hv : m.validUnder k with
+      | true => simp only [step, hr, hl, hc, hk, hv, if_true] at hd; cases hd
+      | false =>
+        refine ⟨hr, rfl, rfl, ?_⟩
+        simp [step, hr, hl, hc, hk, hv]
+  · simp only [step, hr] at hd
+    cases hd
+
+theorem handle_drop_equiv (s : State) (hk : KeysNodup s) (m : InMsg) (src : SockAddr)
+    (h : (step s (.handle m src)).2 = .drop) : (step s (.handle m src)).1.Equiv s := by
+  by_cases hr : m.isResponse = true
+  · cases hl : lookup s.out m.tid with
+    | none =>
+      simp only [step, hr, hl, if_true]
+      exact State.Equiv.refl s
+    | some r =>
+      have hp : (insert (remove s.out m.tid) m.tid r).Perm s.out := by
+        have e : insert (remove s.out m.tid) m.tid r = insert s.out m.tid r := by
+          unfold insert; rw [remove_remove]
+        rw [e]
+        exact insert_lookup_perm s.out hk m.tid r hl
+      cases hc : r.hadCreds with
+      | false => simp only [step, hr, hl, hc, if_true] at h; cases h
+      | true =>
+        cases hrc : s.remoteCreds with
+        | none =>
+          simp only [step, hr, hl, hc, hrc, if_true]
+          exact ⟨rfl, rfl, hrc.symm, fun _ => rfl, hp⟩
+        | some k =>
+          cases hv : m.validUnder k with
+          | true => simp only [step, hr, hl, hc, hrc, hv, if_true] at h; cases h
+          | false =>
+            simp only [step, hr, hl, hc, hrc, hv, if_true]
+            exact ⟨rfl, rfl, hrc.symm, fun _ => rfl, hp⟩
+  · simp only [step, hr] at h
+    cases h
 
 end StunVerif.Agent
